@@ -6,3 +6,6 @@ mod u16_iter;
 
 #[cfg(maxohn_rosu_map_verif)]
 pub use self::{decoder::Decoder as VerifDecoder, encoding::Encoding as VerifEncoding};
+
+#[cfg(maxohn_rosu_map_verif)]
+pub use self::u16_iter::{U16BeIterator as VerifU16BeIterator, U16LeIterator as VerifU16LeIterator};
